@@ -1396,7 +1396,7 @@ theorem parse_list (text : List Char) (file : List UInt8) (toks : List PTok) (ta
       tail = none ∧ ∃ ss, parseTokens text toks = some ss ∧ forest = encStmts file ss := by
   unfold parseWith
   simp only
-  rw [show (⟨⟨text, file, toks, [], tail⟩, [], 0, Fault.none⟩ : P) = initP text file toks tail from rfl]
+  rw [show initParser (⟨text, file, toks, [], tail⟩ : LSrc) = initP text file toks tail from rfl]
   have hat : At text file ((initP text file toks tail) : P) toks := ⟨rfl, rfl, rfl, rfl, rfl, rfl⟩
   have htop := topLoop_spec text file toks.length toks (Nat.le_refl _) fuel (toks.length + 1) [] _ hat hf
     (Nat.le_refl _) hadm
